@@ -19,7 +19,10 @@ from vlib.runner import HarnessError
 from vlib.runner import Property
 from vlib.runner import Result
 from vlib.runner import Violation
+from vlib.runner import known_keys
 from vlib.runner import main
+
+KNOWN_SUBSEC = "C07-times-percent-subsecond-total"
 
 CLK = simk.CLK_TCK
 FIELDS = ["user", "nice", "system", "idle", "iowait", "irq", "softirq",
@@ -175,6 +178,8 @@ def tol(total_ticks, maxval_ticks):
 def run_case(case):
     import psutil
 
+    strict = bool(case.get("allow_known")) or KNOWN_SUBSEC not in known_keys("C07")
+    excluded = 0
     m = Model(case)
     nf = m.nf
     k = simk.Kernel(ncpus=len(m.ids))
@@ -326,6 +331,15 @@ def run_case(case):
                         exps, total = exp_times_percent(a, b, nf)
                         if list(r._fields) != FIELDS[:nf]:
                             raise Violation("times_percent-fields", repr(r._fields))
+                        moved = any(y > x for x, y in zip(a, b))
+                        if total < CLK and moved and not strict:
+                            # recorded known finding: shares are scaled by the
+                            # total when less than one CPU-second elapsed
+                            excluded += 1
+                            for gv in r:
+                                if not 0.0 <= gv <= 100.0:
+                                    raise Violation("times_percent-range", repr(r))
+                            continue
                         for name, gv, ev in zip(r._fields, r, exps):
                             if not 0.0 <= gv <= 100.0:
                                 raise Violation("times_percent-range", f"{name}={gv!r}")
@@ -370,7 +384,7 @@ def run_case(case):
     if shape:
         apis = sorted(x for x in labels if ":" in x)
         nontrivial = ",".join(sorted(shape)) + "|" + ",".join(apis) + "|nf%d" % nf
-    return Result(sorted(labels), nontrivial)
+    return Result(sorted(labels), nontrivial, {"excluded": excluded})
 
 
 def calibrate():
